@@ -14,7 +14,7 @@ from gv.oracle import val, typed_eq, canon
 ID = "C08"
 LEVEL = "exploration"
 RULE = ("pairs of documents with mappings that have ties (equal values under different keys, keys at equal edit distance) and "
-        "mixed-type keys through BasicBuilder, x {auto,match,none} x >= 3 random key permutations at all depths on either side "
+        "mixed-type keys through BasicBuilder (incl. keys of different types with the same text: 2 / '2', True / 'True', None / 'None'), x {auto,match,none} x >= 3 random key permutations at all depths on either side "
         "(thorough: all 24 permutations of 4-key dicts), plus list-swap cases; non-trivial = some mapping with >= 2 keys was "
         "actually re-ordered and the pair is unequal; distinct = distinct (pair, options, permutation)")
 ASSUMPTIONS = ["the order in which sub-edits are listed or printed is not judged (pairings are compared as multisets)",
@@ -31,6 +31,8 @@ def plan(tier, seed):
         specs.append({"stratum": "json-permutations", "n": per, "k": k, "clean": True})
     for k in range(2 if q else 4):
         specs.append({"stratum": "basic-mixed-keys", "n": 900 if q else 4000, "k": k, "clean": True})
+    for k in range(2 if q else 4):
+        specs.append({"stratum": "keys-of-different-types-with-equal-text", "n": 900 if q else 5000, "k": k, "clean": True})
     for k in range(2 if q else 8):
         specs.append({"stratum": "list-swap", "n": 700 if q else 6000, "k": k, "clean": True})
     for k in range(2 if q else 8):
@@ -112,6 +114,29 @@ def gen_cases(spec, ctx):
                 items.append(["zz", 5])
             b = {"$dict": items}
             for ds in gen.DS:
+                yield {"family": "basic", "a": a, "b": b, "ds": ds, "le": "on", "seed": r.randrange(1 << 30)}
+        return
+    if st == "keys-of-different-types-with-equal-text":
+        # keys whose str() coincide but whose types differ (2 / "2", 2.5 / "2.5", True / "True", None / "None"): an ordering of the
+        # pairs that looks only at the text leaves such keys in file order; small value pool => many cost ties
+        groups = [[2, "2"], [2.5, "2.5"], [True, "True"], [False, "False"], [None, "None"], [10, "10"], [1, "1"], [3, "3"]]
+        values = ["x", "b", "xy", 10, 2, {"$dict": []}, [], "abc"]
+        def side():
+            ks = []
+            for g in r.sample(groups, r.randint(1, 3)):
+                ks.extend(g if r.random() < 0.6 else [r.choice(g)])
+            ks.extend(r.sample(["a", "b", "k"], r.randint(0, 2)))
+            # 1 == True and 0 == False as mapping keys: keep one of each python-equal class
+            out, seen = [], []
+            for k in ks:
+                if not any(k == o and type(k) is not str and type(o) is not str for o in seen):
+                    out.append(k)
+                    seen.append(k)
+            r.shuffle(out)
+            return {"$dict": [[k, r.choice(values)] for k in out]}
+        for _ in range(spec["n"]):
+            a, b = side(), side()
+            for ds in ("auto", "match"):
                 yield {"family": "basic", "a": a, "b": b, "ds": ds, "le": "on", "seed": r.randrange(1 << 30)}
         return
     if st == "list-swap":
